@@ -17,8 +17,9 @@ declare -A CHECKS=( [C01]="C01 C03" [C02]="C02" [C03]="C03" [C04]="C04 C09" [C05
  [C11g]="C11" [C12g]="C12" [C13g]="C13" [C14g]="C14" [C15g]="C15" [C16g]="C16" [C17g]="C17" [C18g]="C18" [C19g]="C19" [C20g]="C20"
  [C01h]="C01" [C02h]="C02" [C03h]="C03" [C04h]="C04" [C05h]="C05" [C06h]="C06" [C07h]="C07" [C08h]="C08" [C09h]="C09" [C10h]="C10" [C11h]="C11" [C12h]="C12" [C13h]="C13" [C14h]="C14" [C15h]="C15" [C16h]="C16" [C17h]="C17" [C18h]="C18" [C19h]="C19" [C20h]="C20"
  [C01i]="C01" [C02i]="C02" [C03i]="C03" [C04i]="C04" [C05i]="C05" [C06i]="C06" [C07i]="C07" [C08i]="C08" [C09i]="C09" [C10i]="C10" [C11i]="C11" [C12i]="C12" [C13i]="C13" [C14i]="C14" [C15i]="C15" [C16i]="C16" [C17i]="C17" [C18i]="C18" [C19i]="C19" [C20i]="C20"
- [C01j]="C01" [C02j]="C02" [C03j]="C03" [C04j]="C04" [C05j]="C05" [C06j]="C06" [C07j]="C07" [C08j]="C08" [C09j]="C09" [C10j]="C10" [C11j]="C11" [C12j]="C12" [C13j]="C13" [C14j]="C14" [C15j]="C15" [C16j]="C16" [C17j]="C17" [C18j]="C18" [C19j]="C19" [C20j]="C20" )
-ALL="C01 C02 C03 C04 C05 C06 C07 C08 C09 C10 C11 C12 C13 C14 C15 C16 C17 C18 C19 C20 C01b C02b C03b C04b C05b C06b C07b C08b C09b C10b C11b C12b C13b C14b C15b C16b C17b C18b C19b C20b C01c C02c C03c C04c C05c C06c C07c C08c C09c C10c C11c C12c C13c C14c C15c C16c C17c C18c C19c C20c C01d C02d C03d C04d C05d C06d C07d C08d C09d C10d C11d C12d C13d C14d C15d C16d C17d C18d C19d C20d C01e C02e C03e C04e C05e C06e C07e C08e C09e C10e C11e C12e C13e C14e C15e C16e C17e C18e C19e C20e C01f C02f C03f C04f C05f C06f C07f C08f C09f C10f C11f C12f C13f C14f C15f C16f C17f C18f C19f C20f C01g C02g C03g C04g C05g C06g C07g C08g C09g C10g C11g C12g C13g C14g C15g C16g C17g C18g C19g C20g C01h C02h C03h C04h C05h C06h C07h C08h C09h C10h C11h C12h C13h C14h C15h C16h C17h C18h C19h C20h C01i C02i C03i C04i C05i C06i C07i C08i C09i C10i C11i C12i C13i C14i C15i C16i C17i C18i C19i C20i C01j C02j C03j C04j C05j C06j C07j C08j C09j C10j C11j C12j C13j C14j C15j C16j C17j C18j C19j C20j"
+ [C01j]="C01" [C02j]="C02" [C03j]="C03" [C04j]="C04" [C05j]="C05" [C06j]="C06" [C07j]="C07" [C08j]="C08" [C09j]="C09" [C10j]="C10" [C11j]="C11" [C12j]="C12" [C13j]="C13" [C14j]="C14" [C15j]="C15" [C16j]="C16" [C17j]="C17" [C18j]="C18" [C19j]="C19" [C20j]="C20"
+ [C01k]="C01" [C02k]="C02" [C03k]="C03" [C04k]="C04" [C05k]="C05" [C06k]="C06" [C07k]="C07" [C08k]="C08" [C09k]="C09" [C10k]="C10" [C11k]="C11" [C12k]="C12" [C13k]="C13" [C14k]="C14" [C15k]="C15" [C16k]="C16" [C17k]="C17" [C18k]="C18" [C19k]="C19" [C20k]="C20" )
+ALL="C01 C02 C03 C04 C05 C06 C07 C08 C09 C10 C11 C12 C13 C14 C15 C16 C17 C18 C19 C20 C01b C02b C03b C04b C05b C06b C07b C08b C09b C10b C11b C12b C13b C14b C15b C16b C17b C18b C19b C20b C01c C02c C03c C04c C05c C06c C07c C08c C09c C10c C11c C12c C13c C14c C15c C16c C17c C18c C19c C20c C01d C02d C03d C04d C05d C06d C07d C08d C09d C10d C11d C12d C13d C14d C15d C16d C17d C18d C19d C20d C01e C02e C03e C04e C05e C06e C07e C08e C09e C10e C11e C12e C13e C14e C15e C16e C17e C18e C19e C20e C01f C02f C03f C04f C05f C06f C07f C08f C09f C10f C11f C12f C13f C14f C15f C16f C17f C18f C19f C20f C01g C02g C03g C04g C05g C06g C07g C08g C09g C10g C11g C12g C13g C14g C15g C16g C17g C18g C19g C20g C01h C02h C03h C04h C05h C06h C07h C08h C09h C10h C11h C12h C13h C14h C15h C16h C17h C18h C19h C20h C01i C02i C03i C04i C05i C06i C07i C08i C09i C10i C11i C12i C13i C14i C15i C16i C17i C18i C19i C20i C01j C02j C03j C04j C05j C06j C07j C08j C09j C10j C11j C12j C13j C14j C15j C16j C17j C18j C19j C20j C01k C02k C03k C04k C05k C06k C07k C08k C09k C10k C11k C12k C13k C14k C15k C16k C17k C18k C19k C20k"
 for id in ${@:-$ALL}; do
   SNAP=${SNAP-1} TREE=${TREE-1} /verif/tools/mutant_run.sh $id ${TIER:-quick} ${CHECKS[$id]} 2>&1 | grep -a "^seeded=\|^error"
 done
